@@ -1,8 +1,11 @@
 use crate::LruCache;
-use crate::entry::EntryPtr;
+use crate::entry::{Entry, EntryPtr};
+
+use hashbrown::raw::RawTable;
 
 use std::iter::FusedIterator;
 use std::marker::PhantomData;
+use std::mem;
 
 /// An iterator over references to the entries of an [LruCache] ordered from
 /// least- to most-recently-used. This is obtained by calling [LruCache::iter].
@@ -209,13 +212,31 @@ impl<K, V> DoubleEndedIterator for TakingIterator<K, V> {
 /// [LruCache::drain].
 pub struct Drain<'a, K, V, S> {
     iterator: TakingIterator<K, V>,
+
+    // The table that holds the entries being drained. It is taken out of the
+    // cache for the lifetime of the drain, so the cache itself is already
+    // empty. If the drain is leaked (mem::forget), the remaining entries and
+    // this table are leaked with it, but the cache never refers to entries
+    // that have been moved out.
+
+    table: RawTable<Entry<K, V>>,
     cache: &'a mut LruCache<K, V, S>
 }
 
 impl<'a, K, V, S> Drain<'a, K, V, S> {
     pub(crate) fn new(cache: &'a mut LruCache<K, V, S>) -> Drain<'a, K, V, S> {
+        let iterator = TakingIterator::new(cache);
+        let table = mem::replace(&mut cache.table, RawTable::new());
+
+        // Set the cache as empty.
+
+        cache.seal.get_mut().next = cache.seal;
+        cache.seal.get_mut().prev = cache.seal;
+        cache.current_size = 0;
+
         Drain {
-            iterator: TakingIterator::new(cache),
+            iterator,
+            table,
             cache
         }
     }
@@ -241,13 +262,11 @@ impl<'a, K, V, S> Drop for Drain<'a, K, V, S> {
 
         for _ in self.by_ref() { }
 
-        // Set the cache as empty.
+        // All entries have been moved out. Hand the emptied table back to
+        // the cache, so it keeps its capacity.
 
-        self.cache.seal.get_mut().next = self.cache.seal;
-        self.cache.seal.get_mut().prev = self.cache.seal;
-
-        self.cache.current_size = 0;
-        self.cache.table.clear_no_drop();
+        self.table.clear_no_drop();
+        mem::swap(&mut self.cache.table, &mut self.table);
     }
 }
 
